@@ -264,6 +264,8 @@ class Axis(GetSetDelAttrMixin, AbstractAxis):
 
     def cast(self, dtype):
         " copy axis and cast into a new type"
+        # a bare kind character means the default type of that kind ('f' alone is single precision, 'i' is 32 bits)
+        dtype = {'f': float, 'i': int}.get(dtype, dtype)
         ax = Axis(np.asarray(self.values, dtype=dtype), self.name)
         ax.attrs.update(self.attrs)
         return ax
